@@ -93,6 +93,8 @@ def judge(mode, out, parser, rendered, ntoks_total, all_read):
             if got != want:
                 raise Violation("C03/tree/%s" % _first_diff(got, want),
                                 {"script": _txt(rendered), "got": repr(got), "want": repr(want)})
+        if mode == "c04":
+            roundtrip(parser, rendered)
         return "accepted"
     # the parser rejected
     if res.status == "reject":
@@ -115,6 +117,59 @@ def judge(mode, out, parser, rendered, ntoks_total, all_read):
     last = toks[-1] if toks else ("", b"")
     raise Violation("C01/rejects-valid/%s/%s" % (res.open_cmd, _tokdesc(last)),
                     {"script": _txt(full), "error": getattr(p2, "error", repr(v2))})
+
+
+def serialise(cmds):
+    import io
+    buf = io.StringIO()
+    for c in cmds:
+        c.tosieve(target=buf)
+    return buf.getvalue()
+
+
+def roundtrip(parser, rendered, sigbase="C04"):
+    """print/parse round trip of an accepted script (everything concrete, run natively)"""
+    from sievelib.parser import Parser
+    from engine.side import site_of
+    t1 = tuple(P.normalise(c) for c in parser.result)
+    try:
+        text2 = serialise(parser.result)
+    except Exception as e:
+        raise Violation("%s/tosieve-raises/%s@%s" % (sigbase, type(e).__name__, site_of(e)),
+                        {"script": _txt(rendered), "exc": repr(e)})
+    p2 = Parser()
+    try:
+        ok = p2.parse(text2)
+    except Exception as e:
+        ok = e
+    names = ",".join(sorted({n for n in _names(t1)}))
+    if ok is not True:
+        raise Violation("%s/output-rejected/%s" % (sigbase, _culprit(t1)),
+                        {"script": _txt(rendered), "output": text2,
+                         "error": getattr(p2, "error", repr(ok))})
+    t2 = tuple(P.normalise(c) for c in p2.result)
+    if t2 != t1:
+        raise Violation("%s/tree-changed/%s" % (sigbase, _first_diff(t2, t1)),
+                        {"script": _txt(rendered), "output": text2})
+    text3 = serialise(p2.result)
+    if text3 != text2:
+        raise Violation("%s/not-a-fixed-point/%s" % (sigbase, _culprit(t1)),
+                        {"script": _txt(rendered), "output": text2, "second": text3})
+
+
+def _names(tree):
+    for node in tree:
+        yield node[0]
+        for x in _names(node[3]):
+            yield x
+        for x in _names(node[4]):
+            yield x
+
+
+def _culprit(tree):
+    """innermost-last command name of the script: a stable, narrow label for signatures"""
+    ns = [n for n in _names(tree) if n != "require"]
+    return ns[-1] if ns else "require"
 
 
 def _first_diff(got, want):
@@ -220,21 +275,27 @@ def t1_n6(t0: int, t1: int, t2: int, t3: int, t4: int, t5: int) -> bool:
 T2_CMD = os.environ.get("T2_CMD", "header")
 T2_PREFIX, T2_VOCAB, T2_TAIL = P.t2_space(T2_CMD)
 NA = len(T2_VOCAB)
+T2LO = int(os.environ.get("T2_LO", "0"))
+T2HI = int(os.environ.get("T2_HI", str(NA)))
 _reconf_t1 = reconfigure
 
 
 def reconfigure():  # noqa: F811
-    global T2_CMD, T2_PREFIX, T2_VOCAB, T2_TAIL, NA
+    global T2_CMD, T2_PREFIX, T2_VOCAB, T2_TAIL, NA, T2LO, T2HI
     _reconf_t1()
     T2_CMD = os.environ.get("T2_CMD", "header")
     T2_PREFIX, T2_VOCAB, T2_TAIL = P.t2_space(T2_CMD)
     NA = len(T2_VOCAB)
+    T2LO = int(os.environ.get("T2_LO", "0"))
+    T2HI = int(os.environ.get("T2_HI", str(NA)))
 
 
 def _t2_body(info, args):
     out, parser, mat, rendered = P.lazy_parse(T2_PREFIX, args, T2_VOCAB, sep=SEP, tail=T2_TAIL)
     info["steps"] = len(mat)
     info["concrete"] = {("a%d" % i): (mat[i] if i < len(mat) else 0) for i in range(len(args))}
+    if not mat:
+        info["concrete"]["a0"] = T2LO
     info["show"] = notrace(_txt, rendered)
     cls = notrace(judge, MODE, out, parser, rendered, len(args), parser.lazy_all_read)
     info["cls"] = "%s/%s/%d" % (T2_CMD, cls, len(mat))
@@ -242,7 +303,7 @@ def _t2_body(info, args):
 
 def t2_k2(a0: int, a1: int) -> bool:
     """
-    pre: 0 <= a0 < NA and 0 <= a1 < NA
+    pre: T2LO <= a0 < T2HI and 0 <= a1 < NA
     post: _
     """
     return run("t2_k2", _t2_body, dict(args=[a0, a1]))
@@ -250,7 +311,7 @@ def t2_k2(a0: int, a1: int) -> bool:
 
 def t2_k3(a0: int, a1: int, a2: int) -> bool:
     """
-    pre: 0 <= a0 < NA and 0 <= a1 < NA and 0 <= a2 < NA
+    pre: T2LO <= a0 < T2HI and 0 <= a1 < NA and 0 <= a2 < NA
     post: _
     """
     return run("t2_k3", _t2_body, dict(args=[a0, a1, a2]))
@@ -258,7 +319,7 @@ def t2_k3(a0: int, a1: int, a2: int) -> bool:
 
 def t2_k4(a0: int, a1: int, a2: int, a3: int) -> bool:
     """
-    pre: 0 <= a0 < NA and 0 <= a1 < NA and 0 <= a2 < NA and 0 <= a3 < NA
+    pre: T2LO <= a0 < T2HI and 0 <= a1 < NA and 0 <= a2 < NA and 0 <= a3 < NA
     post: _
     """
     return run("t2_k4", _t2_body, dict(args=[a0, a1, a2, a3]))
@@ -266,7 +327,7 @@ def t2_k4(a0: int, a1: int, a2: int, a3: int) -> bool:
 
 def t2_k5(a0: int, a1: int, a2: int, a3: int, a4: int) -> bool:
     """
-    pre: 0 <= a0 < NA and 0 <= a1 < NA and 0 <= a2 < NA and 0 <= a3 < NA and 0 <= a4 < NA
+    pre: T2LO <= a0 < T2HI and 0 <= a1 < NA and 0 <= a2 < NA and 0 <= a3 < NA and 0 <= a4 < NA
     post: _
     """
     return run("t2_k5", _t2_body, dict(args=[a0, a1, a2, a3, a4]))
